@@ -533,6 +533,42 @@ pub fn validate_csv_from_str(
   csv_validator::validate_csv_from_str(cddl, csv_data, has_header)
 }
 
+/// `0*1`, `0*` (or `*` with an omitted lower bound of zero) and `1*` denote the
+/// same occurrences as `?`, `*` and `+` (RFC 8610 section 3.2); the validators
+/// work on the short forms.
+pub fn normalized_occur(occur: Occur) -> Occur {
+  match occur {
+    Occur::Exact {
+      lower: None | Some(0),
+      upper: Some(1),
+      #[cfg(feature = "ast-span")]
+      span,
+    } => Occur::Optional {
+      #[cfg(feature = "ast-span")]
+      span,
+    },
+    Occur::Exact {
+      lower: None | Some(0),
+      upper: None,
+      #[cfg(feature = "ast-span")]
+      span,
+    } => Occur::ZeroOrMore {
+      #[cfg(feature = "ast-span")]
+      span,
+    },
+    Occur::Exact {
+      lower: Some(1),
+      upper: None,
+      #[cfg(feature = "ast-span")]
+      span,
+    } => Occur::OneOrMore {
+      #[cfg(feature = "ast-span")]
+      span,
+    },
+    other => other,
+  }
+}
+
 /// Find non-choice alternate rule from a given identifier
 pub fn rule_from_ident<'a>(cddl: &'a CDDL, ident: &Identifier) -> Option<&'a Rule<'a>> {
   cddl.rules.iter().find(|r| match r {
